@@ -87,8 +87,7 @@ class CFG:
         self.exit = self._new("exit")
         self.raise_exit = self._new("raise")
         ends = self._block(fn.body, {self.entry})
-        for e in ends:
-            self._edge(e, self.exit)
+        self._connect(ends, self.exit)
 
     # ------------------------------------------------------------ building
     def _new(self, kind: str, node: Optional[ast.AST] = None, note: str = "") -> int:
@@ -315,14 +314,25 @@ class CFG:
     def live_nodes(self) -> Set[int]:
         return self.reachable_from([self.entry])
 
-    def must_pass(self, srcs: Iterable[int], dsts: Iterable[int], via: Iterable[int]) -> Optional[List[int]]:
-        """None if every path src->dst passes through `via`; else a witness path avoiding it."""
+    def must_pass(self, srcs: Iterable[int], dsts: Iterable[int], via: Iterable[int],
+                  drop_edge: Optional[Callable[[int, int, Set[str]], bool]] = None) -> Optional[List[int]]:
+        """None if every path src->dst passes through `via`; else a witness path avoiding it.
+
+        `drop_edge(a, b, labels)` removes edges from consideration (e.g. exceptional edges
+        leaving the statements of a `finally` body)."""
         via = set(via)
         dsts = set(dsts) - via
+        g = self.g
+        if drop_edge is not None:
+            g = nx.DiGraph()
+            g.add_nodes_from(self.g.nodes)
+            for a, b, d in self.g.edges(data=True):
+                if not drop_edge(a, b, d["labels"]):
+                    g.add_edge(a, b)
+        sub = g.subgraph([n for n in g.nodes if n not in via])
         for s in srcs:
             if s in via:
                 continue
-            sub = self.g.subgraph([n for n in self.g.nodes if n not in via])
             for d in dsts:
                 if s in sub and d in sub and nx.has_path(sub, s, d):
                     return nx.shortest_path(sub, s, d)
@@ -352,17 +362,25 @@ class CFG:
         return " -> ".join(parts)
 
     def forward(self, init, transfer: Callable[[Node, object], object], join: Callable[[object, object], object],
-                edge_filter: Optional[Callable[[int, int, Set[str]], bool]] = None) -> Dict[int, object]:
-        """Generic forward may-dataflow; returns IN state per node (None = unreachable)."""
-        IN: Dict[int, object] = {self.entry: init}
-        work = [self.entry]
+                edge_transfer: Optional[Callable[[Node, Node, Set[str], object], object]] = None,
+                start: Optional[int] = None) -> Dict[int, object]:
+        """Generic forward may-dataflow; returns IN state per node (absent = unreachable).
+
+        `edge_transfer(src, dst, labels, out_state)` refines the state along one edge
+        (branch-sensitive facts); returning None kills the edge."""
+        start = self.entry if start is None else start
+        IN: Dict[int, object] = {start: init}
+        work = [start]
         while work:
             n = work.pop()
             out = transfer(self.nodes[n], IN[n])
             for m in self.g.successors(n):
-                if edge_filter is not None and not edge_filter(n, m, self.g[n][m]["labels"]):
-                    continue
-                new = out if m not in IN else join(IN[m], out)
+                o = out
+                if edge_transfer is not None:
+                    o = edge_transfer(self.nodes[n], self.nodes[m], self.g[n][m]["labels"], out)
+                    if o is None:
+                        continue
+                new = o if m not in IN else join(IN[m], o)
                 if m not in IN or new != IN[m]:
                     IN[m] = new
                     work.append(m)
